@@ -93,6 +93,14 @@ pub fn drive(driver: &str, prop: &str, cases: &[Case]) -> Result<Vec<String>, St
     Ok(v)
 }
 
+fn short(s: &str) -> String {
+    if s.len() > 400 {
+        format!("{}…[{} bytes, fnv {:016x}]", s.chars().take(300).collect::<String>(), s.len(), fnv(s))
+    } else {
+        s.to_string()
+    }
+}
+
 pub fn finish(
     cs: Cases,
     driver: &str,
@@ -122,13 +130,13 @@ pub fn finish(
         if *m != c.real {
             n_dis += 1;
             if disagreements.len() < 20 {
-                disagreements.push(json!({"op": c.op, "input": c.note, "real": c.real, "model": m, "class": c.class}));
+                disagreements.push(json!({"op": short(&c.op), "input": short(&c.note), "real": short(&c.real), "model": short(m), "class": c.class}));
             }
         }
         if let Some(o) = &c.oracle {
             n_or += 1;
             if oracle_failures.len() < 50 {
-                oracle_failures.push(json!({"key": o.key, "what": o.what, "op": c.op, "input": c.note, "real": c.real, "class": c.class}));
+                oracle_failures.push(json!({"key": o.key, "what": short(&o.what), "op": short(&c.op), "input": short(&c.note), "real": short(&c.real), "class": c.class}));
             }
         }
     }
@@ -137,7 +145,7 @@ pub fn finish(
     let mut samples = vec![];
     for (c, m) in cs.cases.iter().zip(model.iter()) {
         if seen.insert(c.class.clone()) && samples.len() < 12 {
-            samples.push(json!({"op": format!("{} {}", cs.prop, c.op), "input": c.note, "real": c.real, "model": m}));
+            samples.push(json!({"op": short(&format!("{} {}", cs.prop, c.op)), "input": short(&c.note), "real": short(&c.real), "model": short(m)}));
         }
     }
     let summary = json!({
